@@ -547,7 +547,7 @@ func runFromWireCase(ctx *Ctx, m *common.Model, c CCase, idx int) *common.Violat
 				pmsg = fmt.Sprint(r)
 			}
 		}()
-		err = st.FromWireFormat(arena[:len(buf):len(buf)+64])
+		err = st.FromWireFormat(arena[: len(buf) : len(buf)+64])
 	}()
 	ctx.Res.Count(c.canon(), len(buf) != 44)
 	ctx.Res.Hist(fmt.Sprintf("fromwire_len_%s", lenBucket(len(buf))))
@@ -631,7 +631,7 @@ func runPerrCase(ctx *Ctx, m *common.Model, c CCase, idx int) *common.Violation 
 				pmsg = fmt.Sprint(r)
 			}
 		}()
-		err = libaudit.ParseNetlinkError(arena[:len(buf):len(buf)+16])
+		err = libaudit.ParseNetlinkError(arena[: len(buf) : len(buf)+16])
 	}()
 	ctx.Res.Count(c.canon(), len(buf) >= 4)
 	ctx.Res.Hist("perr")
